@@ -20,13 +20,20 @@ LEVEL = 'exploration'
 
 CODECS = ['latin_1', 'cp500', 'cp037']
 FORMATS = ['vbs', '1014']
-SHAPES = [s for s in c06.SHAPES if s != 'pan']
+SHAPES = [s for s in c06.SHAPES if s != 'pan'] + ['punct']
+# every printable ASCII punctuation character plus two Latin-1 signs: among them are the characters that latin_1,
+# cp500 and cp037 place at different byte values ([ ] ! ^ | cent not)
+PUNCT = ''.join(chr(c) for c in range(32, 127) if not chr(c).isalnum()) + '\xa2\xac\xa3\xa7'
 
 
 def ipm_file(seq, enc, fmt):
     msgs = []
     for i, sh in enumerate(seq):
-        _, m = c06.shape_message(sh, i)
+        if sh == 'punct':
+            m = {'MTI': '1240', 'DE2': '5444330000001111', 'DE72': PUNCT * 3, 'DE42': '[SHOP!] ^|#0001 ',
+                 'DE43': 'A[1]!\\B^|\\C\xa2\xac\\1234567890XYZAUS', 'PDS0023': '[!]', 'PDS0158': PUNCT}
+        else:
+            _, m = c06.shape_message(sh, i)
         msgs.append(m)
     return c06.write_file(msgs, 'PKG', enc, fmt == '1014')
 
@@ -200,7 +207,7 @@ def _check(case, acc, workdir):
 
 def enumerate_cases(tier, seed):
     cases = []
-    seqs = [[s] for s in SHAPES] + [list(t) for t in itertools.combinations(SHAPES, 2)] + \
+    seqs = [[s] for s in SHAPES] + [list(t) for t in itertools.permutations(SHAPES, 2)] + \
         [[SHAPES[(i * 3) % len(SHAPES)] for i in range(5)], [SHAPES[i % len(SHAPES)] for i in range(40)]]
     pairs = [(a, b) for a in CODECS for b in CODECS]
     for si, seq in enumerate(seqs):
@@ -253,7 +260,8 @@ def run_task(task):
 
 def describe(tier, seed):
     return {
-        'rule': 'IPM inputs written by IpmWriter: each of 7 message shapes alone, every unordered pair, a 5-record and a '
+        'rule': 'IPM inputs written by IpmWriter: each of 8 message shapes alone (one made of every punctuation character, '
+                'among them those that latin_1 / cp500 / cp037 encode differently), every ORDERED pair, a 5-record and a '
                 '40-record mixed file (PDS, multi-carrier PDS, binary ICC with all byte values, typed fields, DE43, '
                 '5.9 kB record); parameter inputs of 1/2/7/30 arbitrary-byte records (every byte value occurs). x every '
                 'ordered pair of {latin_1, cp500, cp037} (mideu / paramconv: their fixed cp500<->latin1 pairs) x '
